@@ -52,6 +52,12 @@ def _corpus_specs():
     # a branch with a torch random function (impure for fx), as winner and as loser, block used twice
     out.append({'C': 3, 'hw': 4, 'wseed': 15, 'fixed_twice': False, 'blocks': [
         {'br': ['conv3', 'ubrand', 'id'], 'use': 'twice', 'gumbel': False, 'hard_ctor': False, 'post': 'relu'}]})
+    # in-place statements whose result is unused (outside the blocks, inside a branch) and a branch whose
+    # returned value has another user inside the branch
+    for i, st in enumerate(S.STATEMENTS):
+        out.append({'C': 3, 'hw': 4, 'wseed': 16 + i, 'fixed_twice': False, 'stmt': st, 'blocks': [
+            {'br': ['conv3', 'ubip', 'ubaux'], 'use': ['once', 'twice', 'once'][i], 'gumbel': False,
+             'hard_ctor': False, 'post': 'none'}]})
     # every kind against Identity, block used twice
     for i, k in enumerate(S.BRANCH_KINDS):
         out.append({'C': 2 + i % 3, 'hw': 4, 'wseed': 100 + i, 'fixed_twice': i % 4 == 0, 'blocks': [
@@ -439,6 +445,13 @@ def _work(item):
 def _finding_key(spec, winners, kind, hist=None):
     if kind == 'impure-loser-left':
         return 'C03:export:discarded-branch-with-impure-op-survives'
+    losers_side = any(k in S.SIDE_USER_INSIDE for b, w in zip(spec['blocks'], winners)
+                      for j, k in enumerate(b['br']) if j != w)
+    if kind == 'raises' and losers_side:
+        return 'C03:export:raises:discarded-output-has-another-user'
+    stmt = spec.get('stmt') or any(b['br'][w] in S.INPLACE_STATEMENT_INSIDE for b, w in zip(spec['blocks'], winners))
+    if kind in ('output-differs', 'outside-layer-missing') and stmt and not losers_side:
+        return 'C03:export:in-place-statement-dropped'
     if hist is not None:
         return 'C03:export:%s:%s' % (hist_class(hist), kind)
     if kind in ('raises', 'exported-forward-raises'):
@@ -518,6 +531,10 @@ def _shrink(case, kind, budget=40):
             s2 = json.loads(json.dumps(spec))
             s2['fixed_twice'] = False
             cands.append(dict(best, spec=s2))
+        if spec.get('stmt'):
+            s2 = json.loads(json.dumps(spec))
+            del s2['stmt']
+            cands.append(dict(best, spec=s2))
         for c in cands:
             if budget <= 0:
                 break
@@ -540,7 +557,9 @@ def _canon(ans):
 def run(chk):
     chk.rule = ('SuperNets from a spec grammar: 1..3 SuperNetModules x 2..12 branches drawn from 16 kinds '
                 '(single conv/dw/pool layers, nn.Sequential, nn.Identity, user blocks ending in a module, user '
-                'blocks ending in a functional or method op) x used once / twice / twice at another resolution '
+                'blocks ending in a functional or method op, blocks with an in-place statement / an auxiliary layer '
+                'whose result is unused / a torch random function) x optional in-place statement outside the blocks '
+                '(module, method or functional; result unused) x used once / twice / twice at another resolution '
                 'x softmax or Gumbel sampler, hard via constructor or update_softmax_options, fixed layers '
                 'before/between/after (one of them used twice); every combination of winners when <= 64, else a '
                 'sample that always contains winners 1, 10, 11 of blocks that have them; alpha vectors of four '
@@ -612,11 +631,6 @@ def run(chk):
                                                                '(hypotheses of the C03 theorems)')
         else:
             chk.hist['theorem-hypotheses-hold'] = chk.hist.get('theorem-hypotheses-hold', 0) + 1
-        has_impure = any(k in S.IMPURE_INSIDE for b in spec['blocks'] for k in b['br'])
-        chk.corr(case, 'pure=%d' % (not has_impure), 'pure=%s' % flags.get('pure', '?') if ans.startswith('ok')
-                 else 'pure=%d' % (not has_impure),
-                 'PureLeaves (hypothesis of export_survivors_feed_output / export_keeps_exactly) holds iff no '
-                 'branch contains a torch random function')
         if rec.get('random_winner'):
             chk.hist['output-not-compared:random-winner'] = chk.hist.get('output-not-compared:random-winner', 0) + 1
         nontriv = any(w != 0 for w in rec['winners'])
